@@ -2,7 +2,7 @@
 # run_all.sh [tier]: runs every registered check on the current tree, prints a one-line verdict per property.
 export GOFLAGS=-mod=mod GOPROXY=off GOSUMDB=off GOTOOLCHAIN=local
 T=${1:-quick}
-for c in $(python3 -c "import json;print(' '.join(x['property_id'] for x in json.load(open('/verif/MANIFEST.json'))['checks']))"); do
-  s=$(date +%s); timeout 3000 /verif/bin/gosymx check $c --tier $T > /tmp/runall_$c.log 2>&1; e=$?; echo "$c exit=$e $(( $(date +%s)-s ))s $(grep -c '^KNOWN-FINDING' /tmp/runall_$c.log) known; $(grep -m1 'tier=' /tmp/runall_$c.log | cut -c1-150)"
+for c in $(python3 -c "import json;print(' '.join(x['property_id'] for x in json.load(open('${VERIF_ROOT:-/verif}/MANIFEST.json'))['checks']))"); do
+  s=$(date +%s); timeout 3000 ${VERIF_ROOT:-/verif}/bin/gosymx check $c --tier $T > /tmp/runall_$c.log 2>&1; e=$?; echo "$c exit=$e $(( $(date +%s)-s ))s $(grep -c '^KNOWN-FINDING' /tmp/runall_$c.log) known; $(grep -m1 'tier=' /tmp/runall_$c.log | cut -c1-150)"
   [ $e -ne 0 ] && grep "INCONCL\|VIOLATION\|counterexample" /tmp/runall_$c.log | cut -c1-300 | head -5
 done
